@@ -142,7 +142,13 @@ def shard_c03(ctx, shard, n):
     for _ in range(n):
         gen, g, pt = _gen(rng, ctx)
         args = gen.args(pt)
-        ops = [("generate", gfi.cm_from_leafmap(g, gen.values(g)), args)]
+        start = rng.random()
+        if start < 0.5:
+            ops = [("generate", gfi.cm_from_leafmap(g, gen.values(g)), args)]
+        elif start < 0.75:
+            ops = [("simulate", args)]
+        else:
+            ops = [("generate", constraint_subset(rng, g, gen.values(g), "some"), args)]
         for j in range(3):
             new_args = perturb_args(gen, args, rng, p=[0.0, 0.7, 1.0][j % 3] if rng.random() < 0.7 else 0.5)
             mode = rng.choice(["none", "some", "some", "all"])
